@@ -14,6 +14,11 @@ renderer model (`Model/Render*.lean`):
   written_cell_body_eq_model   the WHOLE written-cell path (dirty … switch)  = tokens / pen / flags / dirty / last of the written-cell branch
   unchanged_body_eq_model      `if next == last && !refresh && col >= dirty { … continue }` = the unchanged branch
   render_frame_body_eq_model   pointer shape / trailing OSC 8 close / cursor show  = `pre` / `close` / `show_` of `renderBodyS`
+  render_body_eq_model         `render()` as a whole (pointer shape, row loop, cell loop, trailing close, cursor show) = `renderBodyS`;
+  render_frame_eq_interp       one `Render()` = the writer (`flush`, interpreted by `C01Facts.flush_from_source`) over the interpreted body
+  render_row_body_eq_model     the WHOLE cell loop of one row: the interpreted blocks glued in source order and iterated with the
+                               loop's `col += 1` = `renderCellsS` (with `Lemmas/RenderLoop.goRow_eq`: index loop with `col += skip` and
+                               nulling loops = list recursion with `skip` / `track`)
   render_written_branch_eq_interp, render_sixel_branch_eq_interp, render_unchanged_branch_eq_interp
                                each of the three branches of `renderCellsS` at a non-skipped cell continues with the
                                state the interpreted statements compute
@@ -30,6 +35,8 @@ import VaxisModel.Model.RenderSixel
 import VaxisModel.Gen.RenderFacts
 import VaxisModel.Lemmas.RenderDisplay
 import VaxisModel.Lemmas.RenderImages
+import VaxisModel.Lemmas.RenderLoop
+import VaxisModel.Props.C01Facts
 
 namespace VaxisModel.Props.C01Body
 open VaxisModel.Model.Render VaxisModel.Model.RenderInterp
@@ -478,6 +485,185 @@ theorem render_frame_body_eq_model (cw : String → Nat) (f : Frame) (pen : Styl
   · by_cases h : pen.link = "" <;> simp [exec, evalG, evalS, List.dropWhile, List.takeWhile, h]
   · cases h1 : f.cursorNext.visible <;> cases h2 : f.cursorLast.visible <;>
       simp [exec, evalG, evalS, List.dropWhile, List.takeWhile, h1, h2]
+
+
+/-! ### the whole row loop -/
+
+/-- After the write `switch`: `skip := vx.advance(next)`, the second nulling loop, `col += skip`. -/
+def tailBlock : List Line :=
+  (G.dropWhile (fun l => !(l.1 == 2 && l.2.1 == "assign" && l.2.2 == "skip:=vx.advance(next)"))).takeWhile (fun l => decide (2 ≤ l.1))
+
+theorem tail_prog : prune (prog tailBlock) = [(2, .stmt, .skipAdvance), (2, .stmt, .nullLoop), (2, .stmt, .colSkip)] := by
+  decide +kernel
+
+theorem tail_body_eq_model (cw : String → Nat) (caps : Caps) (m : Cell) (col : Nat) :
+    let e := runP cw caps tailBlock { next := m, col := col }
+    e.unknown = false ∧ e.skipv = advance cw m ∧ e.nulled = advance cw m ∧ e.col = col + advance cw m := by
+  have hl : tailBlock.length = 8 := by decide +kernel
+  intro e
+  simp only [e]
+  unfold runP
+  rw [tail_prog, hl]
+  simp [exec, evalS, List.dropWhile, List.takeWhile]
+
+open VaxisModel.Lemmas.RenderLoop in
+/-- One iteration of `for col := 0; col < len(row); col += 1 { … }`: the blocks of the loop body run from the
+    extracted text, glued in source order — image cell?  `continue`; clip; unchanged?  nulling loop,
+    `col += skip`, `continue`; else the written-cell path, `skip := advance(next)`, nulling loop with `dirty`
+    extension, `col += skip` — then the loop's `col += 1`.  Result: next column, `dirty`, loop state, `last` row. -/
+def iterI (cw : String → Nat) (caps : Caps) (refresh : Bool) (row : Nat) (ns : List Cell)
+    (col dirty : Nat) (st : RSt) (L : List Cell) : Option (Nat × Nat × RSt × List Cell) :=
+  match ns[col]?, L[col]? with
+  | some n0, some l =>
+    let es := run cw caps sixelBlock { next := n0, last := l, col := col, dirty := dirty, reposition := st.reposition, out := st.out }
+    if es.cont then some (col + 1, es.dirty, { st with reposition := es.reposition }, L.set col (es.lastSet.getD l))
+    else
+      let m := (run cw caps clipBlock { next := n0, col := col, len := col + (ns.length - col) }).next
+      let eu := runP cw caps unchangedBlock
+        ({ next := m, last := l, col := col, dirty := dirty, refresh := refresh, reposition := st.reposition, out := st.out } : Env)
+      if eu.cont then
+        let r := nullLoop cw false eu.nulled (col + 1) L eu.dirty
+        some (eu.col + 1, r.2, { st with reposition := eu.reposition }, r.1)
+      else
+        let ew := runP cw caps writtenPath (writtenEnv st m l row col dirty)
+        let et := runP cw caps tailBlock { next := m, col := col }
+        let r := nullLoop cw true et.nulled (col + 1) (L.set col (ew.lastSet.getD m)) ew.dirty
+        some (et.col + 1, r.2, { reposition := ew.reposition, pen := ew.cursor, out := ew.out }, r.1)
+  | _, _ => none
+
+/-- The row loop over the interpreted iteration (fuel: one unit per iteration). -/
+def rowLoopI (cw : String → Nat) (caps : Caps) (refresh : Bool) (row : Nat) (ns : List Cell) :
+    Nat → Nat → Nat → RSt → List Cell → List Cell × RSt
+  | 0, _, _, st, L => (L, st)
+  | f + 1, col, dirty, st, L =>
+    match iterI cw caps refresh row ns col dirty st L with
+    | some (col', dirty', st', L') => rowLoopI cw caps refresh row ns f col' dirty' st' L'
+    | none => (L, st)
+
+open VaxisModel.Lemmas.RenderLoop in
+theorem rowLoopI_eq_goRow (cw : String → Nat) (caps : Caps) (refresh : Bool) (row : Nat) (ns : List Cell) :
+    ∀ (f col dirty : Nat) (st : RSt) (L : List Cell),
+      rowLoopI cw caps refresh row ns f col dirty st L = goRow cw caps refresh row ns f col dirty st L := by
+  intro f
+  induction f with
+  | zero => intro col dirty st L; rfl
+  | succ f ih =>
+    intro col dirty st L
+    simp only [rowLoopI, goRow, iterI]
+    cases hn : ns[col]? with
+    | none => rfl
+    | some n0 =>
+      cases hl : L[col]? with
+      | none => rfl
+      | some l =>
+        simp only
+        obtain ⟨_, _, hs1, hs2⟩ := sixel_body_eq_model cw caps n0 l col dirty st.reposition st.out
+        by_cases hsx : n0.sixel = true
+        · obtain ⟨c1, c2, c3, c4⟩ := hs1 hsx
+          simp only [c1, c2, c3, c4, if_true, hsx, Option.getD_some, ih]
+        · have hsx' : n0.sixel = false := by simpa using hsx
+          obtain ⟨c1, _, _, _⟩ := hs2 hsx'
+          simp only [c1, Bool.false_eq_true, if_false, hsx']
+          have hm := (clip_body_eq_model cw caps n0 col (ns.length - col)).1
+          rw [hm]
+          generalize clipCell cw (ns.length - col) n0 = m
+          obtain ⟨_, _, hud, hu1, hu2⟩ := unchanged_body_eq_model cw caps m l col dirty refresh st.reposition st.out
+          by_cases hc : m = l ∧ ¬ refresh ∧ col ≥ dirty
+          · obtain ⟨d1, d2, _, d4, d5⟩ := hu1 hc
+            simp only [d1, d2, d4, d5, hud, if_true, if_pos hc, ih]
+          · obtain ⟨d1, _, _⟩ := hu2 hc
+            obtain ⟨_, w2, w3, w4⟩ := written_cell_body_eq_model cw caps st m l row col dirty
+            obtain ⟨_, _, t3, t4⟩ := tail_body_eq_model cw caps m col
+            have w4' := RSt.mk.inj w4
+            simp only [d1, Bool.false_eq_true, if_false, if_neg hc, w2, w3, t3, t4, Option.getD_some, w4'.1, w4'.2.1, w4'.2.2, ih]
+
+open VaxisModel.Lemmas.RenderLoop in
+/-- **render_row_body_eq_model**: the cell loop of `render()` for one row — every statement of the loop body
+    executed from the text extracted on this run (`iterI`), iterated with the loop's own `col += 1` — computes
+    the `last` row and the loop state (tokens, tracked pen, `reposition`) of the model's `renderCellsS`, for all
+    rows, previous rows, loop states, width oracles and capability sets.  (Hand-written in `iterI` / `nullLoop`:
+    the order in which the blocks follow each other, and what the two nulling loops do; both are pinned by
+    `facts_render`.) -/
+theorem render_row_body_eq_model (cw : String → Nat) (caps : Caps) (refresh : Bool) (row : Nat) (ns ls : List Cell) (st : RSt)
+    (hl : ns.length = ls.length) :
+    rowLoopI cw caps refresh row ns (ns.length + 1) 0 0 st ls = renderCellsS cw caps refresh row 0 0 false 0 ns ls st := by
+  rw [rowLoopI_eq_goRow, goRow_eq cw caps refresh row ns ls st hl]
+
+
+/-! ### `render()` as a whole (without the graphics placement loops, which are C20's) -/
+
+/-- `for row := range vx.screenNext.buf { reposition = true; dirty := 0; for col … }` over the interpreted cell loop. -/
+def rowsI (cw : String → Nat) (caps : Caps) (refresh : Bool) : Nat → Grid → Grid → RSt → Grid × RSt
+  | _, [], _, st => ([], st)
+  | _, _ :: _, [], st => ([], st)
+  | row, n :: ns, l :: ls, st =>
+      let r := rowLoopI cw caps refresh row n (n.length + 1) 0 0 { st with reposition := true } l
+      let rest := rowsI cw caps refresh (row + 1) ns ls r.2
+      (r.1 :: rest.1, rest.2)
+
+/-- Rows of the two buffers have pairwise the same length (what `resize` establishes). -/
+def SameShape : Grid → Grid → Prop
+  | n :: ns, l :: ls => n.length = l.length ∧ SameShape ns ls
+  | _, _ => True
+
+theorem rowsI_eq (cw : String → Nat) (caps : Caps) (refresh : Bool) :
+    ∀ (ns ls : Grid) (row : Nat) (st : RSt), SameShape ns ls →
+      rowsI cw caps refresh row ns ls st = renderRowsS cw caps refresh row ns ls st := by
+  intro ns
+  induction ns with
+  | nil => intro ls row st _; simp [rowsI, renderRowsS]
+  | cons n ns ih =>
+    intro ls row st h
+    cases ls with
+    | nil => simp [rowsI, renderRowsS]
+    | cons l ls =>
+      simp only [rowsI, renderRowsS]
+      rw [render_row_body_eq_model cw caps refresh row n l _ h.1, ih ls (row + 1) _ h.2]
+
+/-- The body of `render()`: pointer-shape block, row loop, trailing close, cursor show — each piece run
+    from the extracted text. -/
+def renderBodyI (cw : String → Nat) (f : Frame) : Grid × List Tok :=
+  let e0 := run cw f.caps shapeBlock { shapeNext := f.shapeNext, shapeLast := f.shapeLast, out := [] }
+  let r := rowsI cw f.caps f.refresh 0 f.next f.last { out := e0.out }
+  let e1 := run cw f.caps closeBlock { cursor := r.2.pen, out := r.2.out }
+  let e2 := run cw f.caps showBlock { cn := f.cursorNext, cl := f.cursorLast, out := e1.out }
+  (r.1, e2.out)
+
+/-- **render_body_eq_model**: `render()` — pointer shape, the row loop with the whole cell loop, the trailing
+    hyperlink close and the cursor show, every statement executed from the text extracted on this run
+    (block order and the two nulling loops pinned) — computes the `last` buffer and the tokens of the
+    model's `renderBodyS`, for all frames. -/
+theorem render_body_eq_model (cw : String → Nat) (f : Frame) (h : SameShape f.next f.last) :
+    renderBodyI cw f = renderBodyS cw f := by
+  unfold renderBodyI renderBodyS
+  obtain ⟨a1, _, _, _, _, _⟩ := render_frame_body_eq_model cw f {} []
+  simp only [a1, List.nil_append, rowsI_eq cw f.caps f.refresh f.next f.last 0 _ h]
+  generalize renderRowsS cw f.caps f.refresh 0 f.next f.last
+    { out := if f.shapeLast ≠ f.shapeNext then [Tok.pointer f.shapeNext] else [] } = rr
+  obtain ⟨last', st⟩ := rr
+  obtain ⟨_, a2, _, _, _, _⟩ := render_frame_body_eq_model cw f st.pen st.out
+  simp only [a2]
+  obtain ⟨_, _, a3, _, _, _⟩ := render_frame_body_eq_model cw f st.pen
+    (st.out ++ if st.pen.link ≠ "" then [Tok.osc8 "" ""] else [])
+  simp only [a3]
+
+/-- **flush_body_eq_model**: the writer (`Write` / `WriteString` / `Flush`) as the interpretation of the
+    guarded writes extracted from writer.go (`Props.C01Facts.flush_from_source`, round 3) — restated here so
+    that the pair `render_body_eq_model` / `flush_body_eq_model` stands together: one `Render()` without a
+    pending resize is `flushOf … (renderBodyI …)`. -/
+theorem render_frame_eq_interp (cw : String → Nat) (f : Frame) (h : SameShape f.next f.last) :
+    renderFrameS cw f = ((renderBodyI cw f).1, flush f.caps f.cursorNext f.cursorLast (renderBodyI cw f).2) := by
+  rw [render_body_eq_model cw f h]
+  rfl
+
+
+/-- **flush_body_eq_model** (= `Props.C01Facts.flush_from_source`): the writer model is the interpretation
+    of the guarded writes extracted from writer.go on this run. -/
+theorem flush_body_eq_model (caps : Caps) (cn cl : CursorState) (body : List Tok) :
+    flush caps cn cl body =
+      VaxisModel.Lemmas.RenderFacts.flushOf VaxisModel.Gen.RenderFacts.wsPrologue VaxisModel.Gen.RenderFacts.flushCursorOnly
+        VaxisModel.Gen.RenderFacts.flushEpilogue caps cn cl body :=
+  VaxisModel.Props.C01Facts.flush_from_source caps cn cl body
 
 
 end VaxisModel.Props.C01Body
